@@ -1,4 +1,4 @@
-import BoltonsVerif.C06.Roundtrip
+import BoltonsVerif.C06.Colon
 /-
 C06 — URLs and references WITHOUT an authority: `scheme:path?query#fragment` (mailto:, urn:, …),
 `scheme:///path` (a scheme that uses a netloc, with an empty one: `file:///etc/passwd`), and relative
@@ -318,20 +318,65 @@ theorem slashesS_false {scheme : Text} {ns : Bool} {P : Text} (h : slashesS sche
   simp only [slashesS, decide_eq_false_iff_not, not_or] at h
   exact h.1
 
-theorem escColonFirst_id {p : Text} (h : 58 ∉ before 47 p) : escColonFirst p = p := by
-  unfold escColonFirst
-  have hf : ∀ l : Text, 58 ∉ l → l.flatMap (fun c => if c = 58 then [37, 51, 65] else [c]) = l := by
-    intro l hl
-    induction l with
-    | nil => rfl
-    | cons a l ih =>
-      simp only [List.mem_cons, not_or] at hl
-      have ha : a ≠ 58 := fun e => hl.1 e.symm
-      simp only [List.flatMap_cons, ha, if_false, List.singleton_append]
-      rw [ih hl.2]
-  rw [hf _ h]
-  unfold before
-  exact List.takeWhile_append_dropWhile
+theorem escColonFirst_eq (p : Text) : escColonFirst p = escColon (before 47 p) ++ p.dropWhile (neq 47) := rfl
+
+theorem dropWhile_none {c : Nat} {a : Text} (ha : ∀ x ∈ a, x ≠ c) : a.dropWhile (neq c) = [] := by
+  have := dropWhile_append_stop (p := neq c) (a := a) (fun x hx => by simp [neq, ha x hx]) (stopHead_nil _)
+  simpa using this
+
+/-- the colon escape touches the first segment only -/
+theorem escColonFirst_intercalate (q₁ : Text) (qs : List Text) (h : ∀ x ∈ q₁, x ≠ 47) :
+    escColonFirst ([47].intercalate (q₁ :: qs)) = [47].intercalate (escColon q₁ :: qs) := by
+  cases qs with
+  | nil =>
+    rw [List.intercalate_singleton, List.intercalate_singleton, escColonFirst_eq, before_none h, dropWhile_none h]
+    simp
+  | cons b r =>
+    rw [List.intercalate_cons_cons, List.intercalate_cons_cons, escColonFirst_eq]
+    have e : q₁ ++ [47] ++ [47].intercalate (b :: r) = q₁ ++ 47 :: [47].intercalate (b :: r) := by simp
+    rw [e, before_append h]
+    have hd : (q₁ ++ 47 :: [47].intercalate (b :: r)).dropWhile (neq 47) = 47 :: [47].intercalate (b :: r) :=
+      dropWhile_append_stop (fun x hx => by simp [neq, h x hx]) (stopHead_cons _ (by simp [neq]))
+    rw [hd]
+    simp
+
+theorem path_stop_pct3A : (stopSet .path).contains 37 = false ∧ (stopSet .path).contains 51 = false ∧
+    (stopSet .path).contains 65 = false := by decide
+
+/-- the colon escape of a faithfully quoted segment is a faithful quoting of the same text, without raw `:` -/
+theorem Quoted.escColon {q d : Text} (h : Quoted .path q d) : Quoted .path (escColon q) d where
+  stop := by
+    intro ch hch
+    rcases escColon_mem hch with h' | h' | h' | h'
+    · exact h.stop ch h'
+    · subst h'; exact path_stop_pct3A.1
+    · subst h'; exact path_stop_pct3A.2.1
+    · subst h'; exact path_stop_pct3A.2.2
+  unq := by rw [unquote_escColon]; exact h.unq
+
+/-- path segments as (quoted text, what it decodes to) pairs: split and decode -/
+theorem segs_parts (l : List (Text × Text)) (hne : l ≠ []) (hq : ∀ p ∈ l, Quoted .path p.1 p.2) :
+    (([47].intercalate (l.map (·.1))).splitOn 47).map maybeUnquote = l.map (·.2) := by
+  rw [List.splitOn_intercalate]
+  · rw [List.map_map]
+    apply List.map_congr_left
+    intro p hp
+    exact (hq p hp).munq
+  · intro x hx
+    rw [List.mem_map] at hx
+    obtain ⟨p, hp, rfl⟩ := hx
+    intro h47
+    exact (stop_path ((hq p hp).stop 47 h47)).2 rfl
+  · simpa using hne
+
+theorem segs_chars (l : List (Text × Text)) (hq : ∀ p ∈ l, Quoted .path p.1 p.2) :
+    ∀ ch ∈ [47].intercalate (l.map (·.1)), notIn pathStop ch = true := by
+  intro ch hch
+  rcases mem_intercalate hch with h | ⟨x, hx, hm⟩
+  · subst h; exact stops_ok.2.2.2.2.2.2.1
+  · rw [List.mem_map] at hx
+    obtain ⟨p, hp, rfl⟩ := hx
+    exact (stop_path ((hq p hp).stop ch hm)).1
 
 theorem authority_nil (env : Env) (full : Bool) (u : URL) (hh : u.host = []) (hu : u.username = [])
     (hp : u.password = []) : authority env full u = .ok [] := by
@@ -347,22 +392,70 @@ section noauth
 variable (env : Env) (full : Bool) (D : Text → Text)
 
 /-- no authority (no host, no userinfo); a scheme or none; any path, query, fragment, every component
-    faithfully quoted in the mode at hand; in a relative reference (no scheme) the rendering of the first path
-    segment has no raw `:` -/
+    faithfully quoted in the mode at hand -/
 structure WFnq (u : URL) : Prop where
   scheme_ok : ∀ c ∈ u.scheme, notIn schemeStop c = true
   host_nil : u.host = []
   user_nil : u.username = []
   pw_nil : u.password = []
   parts_ne : u.pathParts ≠ []
-  no_colon : u.scheme = [] → 58 ∉ before 47 (pathText env full u.pathParts)
   query_ok : ∀ kv ∈ u.query, ¬ (D kv.1 = [] ∧ kv.2 = none)
   q_parts : ∀ s ∈ u.pathParts, Quoted .path (quotePart .path env.nfc full s) (D s)
   q_query : ∀ kv ∈ u.query, PairQ env full D kv
   q_frag : Quoted .fragment (quotePart .fragment env.nfc full u.fragment) (D u.fragment)
 
+/-- the path as `to_text` writes it when there is no authority: in a relative reference (no scheme) every `:`
+    of the first segment is escaped, so that it cannot be read as the end of a scheme -/
+def pathR (u : URL) : Text :=
+  if u.scheme = [] then escColonFirst (pathText env full u.pathParts) else pathText env full u.pathParts
+
+/-- `pathR` is the `/`-join of faithfully quoted segments that decode to the segments of the URL, and in a relative
+    reference its first segment has no raw `:` -/
+theorem pathR_segs (u : URL) (hne : u.pathParts ≠ [])
+    (hq : ∀ s ∈ u.pathParts, Quoted .path (quotePart .path env.nfc full s) (D s)) :
+    ∃ l : List (Text × Text), l ≠ [] ∧ (∀ p ∈ l, Quoted .path p.1 p.2) ∧ l.map (·.2) = u.pathParts.map D ∧
+      pathR env full u = [47].intercalate (l.map (·.1)) ∧
+      (u.scheme = [] → 58 ∉ before 47 (pathR env full u)) := by
+  by_cases hs : u.scheme = []
+  · cases hp : u.pathParts with
+    | nil => exact absurd hp hne
+    | cons s₁ rest =>
+      rw [hp] at hq
+      have hq1 := hq s₁ (by simp)
+      have h47 : ∀ x ∈ quotePart .path env.nfc full s₁, x ≠ 47 := fun x hx => (stop_path (hq1.stop x hx)).2
+      have hE : pathR env full u = [47].intercalate (escColon (quotePart .path env.nfc full s₁) ::
+          rest.map (quotePart .path env.nfc full)) := by
+        simp only [pathR, hs, if_true, pathText, hp, List.map_cons]
+        exact escColonFirst_intercalate _ _ h47
+      refine ⟨(escColon (quotePart .path env.nfc full s₁), D s₁) ::
+          rest.map (fun s => (quotePart .path env.nfc full s, D s)), by simp, ?_, by simp, ?_, ?_⟩
+      · intro p hp'
+        simp only [List.mem_cons, List.mem_map] at hp'
+        rcases hp' with rfl | ⟨s, hs', rfl⟩
+        · exact hq1.escColon
+        · exact hq s (by simp [hs'])
+      · rw [hE]; simp [List.map_map, Function.comp_def]
+      · intro _
+        rw [hE]
+        have h47' : ∀ x ∈ escColon (quotePart .path env.nfc full s₁), x ≠ 47 :=
+          fun x hx => (stop_path (hq1.escColon.stop x hx)).2
+        cases hr : rest.map (quotePart .path env.nfc full) with
+        | nil => rw [List.intercalate_singleton, before_none h47']; exact escColon_no_colon _
+        | cons b r =>
+          rw [List.intercalate_cons_cons]
+          have e : escColon (quotePart .path env.nfc full s₁) ++ [47] ++ [47].intercalate (b :: r)
+              = escColon (quotePart .path env.nfc full s₁) ++ 47 :: [47].intercalate (b :: r) := by simp
+          rw [e, before_append h47']; exact escColon_no_colon _
+  · refine ⟨u.pathParts.map (fun s => (quotePart .path env.nfc full s, D s)), by simpa using hne, ?_,
+      by simp [List.map_map, Function.comp_def], by simp [pathR, hs, pathText, List.map_map, Function.comp_def],
+      fun h => absurd h hs⟩
+    intro p hp
+    rw [List.mem_map] at hp
+    obtain ⟨s, hs', rfl⟩ := hp
+    exact hq s hs'
+
 /-- does `to_text` write `//` for this URL -/
-def slashes (u : URL) : Bool := slashesS u.scheme u.netlocSep (pathText env full u.pathParts)
+def slashes (u : URL) : Bool := slashesS u.scheme u.netlocSep (pathR env full u)
 
 /-- what comes back: the texts decoded, whether there was a `//` remembered, no port -/
 def normalN (u : URL) : URL :=
@@ -379,7 +472,7 @@ def normalN (u : URL) : URL :=
 
 /-- the rendered text, spelled out -/
 def urlTextN (u : URL) : Text :=
-  spart u.scheme ++ (slpart (slashes env full u) ++ (pathText env full u.pathParts ++
+  spart u.scheme ++ (slpart (slashes env full u) ++ (pathR env full u ++
     (qpart (queryText env full u.query) ++ fpart (quotePart .fragment env.nfc full u.fragment))))
 
 theorem toText_urlTextN (u : URL) (hW : WFnq env full D u) : toText env full u = .ok (urlTextN env full u) := by
@@ -388,27 +481,25 @@ theorem toText_urlTextN (u : URL) (hW : WFnq env full D u) : toText env full u =
   simp only []
   congr 1
   have hpath : (if u.scheme = [] ∧ True then escColonFirst (pathText env full u.pathParts)
-      else pathText env full u.pathParts) = pathText env full u.pathParts := by
-    by_cases hs : u.scheme = []
-    · simp only [hs, and_self, if_true]
-      exact escColonFirst_id (hW.no_colon hs)
-    · simp [hs]
+      else pathText env full u.pathParts) = pathR env full u := by
+    simp [pathR]
   rw [hpath]
   unfold assemble urlTextN spart slpart qpart fpart slashes slashesS
   simp only [usesNetloc_eq, ne_eq, not_true_eq_false, if_false, false_and, and_false]
-  by_cases hP : pathText env full u.pathParts = []
+  by_cases hP : pathR env full u = []
   · simp [hP, List.append_assoc]
   · simp [hP, List.append_assoc]
 
 theorem urlTextN_scanned (u : URL) (hW : WFnq env full D u) :
     ScannedN (urlTextN env full u) u.scheme (slashes env full u)
-      (pathText env full u.pathParts) (queryText env full u.query)
-      (quotePart .fragment env.nfc full u.fragment) :=
-  scan_noauth _ _ _ _ _ hW.scheme_ok
-    (pathText_chars env full D u.pathParts hW.q_parts)
+      (pathR env full u) (queryText env full u.query)
+      (quotePart .fragment env.nfc full u.fragment) := by
+  obtain ⟨l, _, hlq, _, hE, h58⟩ := pathR_segs env full D u hW.parts_ne hW.q_parts
+  exact scan_noauth _ _ _ _ _ hW.scheme_ok
+    (by rw [hE]; exact segs_chars l hlq)
     (queryText_chars env full D u.query hW.q_query)
     (fun c hc => stop_fragment (hW.q_frag.stop c hc))
-    (fun hs _ => hW.no_colon hs)
+    (fun hs _ => h58 hs)
     (fun h => slashesS_true h)
     (fun h => slashesS_false h)
 
@@ -424,7 +515,10 @@ theorem ofText_urlTextN (u : URL) (hW : WFnq env full D u) :
     cases slashes env full u <;> rfl
   rw [hau, his, parseAuthority_nil env]
   simp only [if_true, maybeUnquote_nil]
-  rw [pathText_parts env full D u.pathParts hW.parts_ne hW.q_parts]
+  have hparts : ((pathR env full u).splitOn 47).map maybeUnquote = u.pathParts.map D := by
+    obtain ⟨l, hlne, hlq, hl2, hE, _⟩ := pathR_segs env full D u hW.parts_ne hW.q_parts
+    rw [hE, segs_parts l hlne hlq, hl2]
+  rw [hparts]
   rw [parseQsl_queryText env full D u.query hW.q_query hW.query_ok]
   rw [hW.q_frag.munq]
   rfl
@@ -446,15 +540,21 @@ theorem normalN_pathText (u : URL) :
   simp [hD]
 
 include hD in
+theorem normalN_pathR (u : URL) : pathR env full (normalN env full D u) = pathR env full u := by
+  unfold pathR
+  rw [normalN_pathText env full D hD u]
+  rfl
+
+include hD in
 theorem normalN_slashes (u : URL) : slashes env full (normalN env full D u) = slashes env full u := by
   unfold slashes
-  rw [normalN_pathText env full D hD u]
+  rw [normalN_pathR env full D hD u]
   exact slashesS_idem u.scheme u.netlocSep _
 
 include hD in
 theorem normalN_urlTextN (u : URL) : urlTextN env full (normalN env full D u) = urlTextN env full u := by
   unfold urlTextN
-  rw [normalN_slashes env full D hD u, normalN_pathText env full D hD u]
+  rw [normalN_slashes env full D hD u, normalN_pathR env full D hD u]
   have hq : queryText env full (normalN env full D u).query = queryText env full u.query := by
     simp only [queryText, normalN, List.map_map]
     congr 1
@@ -477,10 +577,6 @@ theorem normalN_WFnq (u : URL) (hW : WFnq env full D u) : WFnq env full D (norma
     have := hW.parts_ne
     simp only [normalN, ne_eq, List.map_eq_nil_iff]
     exact this
-  no_colon := by
-    intro hs
-    rw [normalN_pathText env full D hD u]
-    exact hW.no_colon hs
   query_ok := by
     intro kv hkv
     simp only [normalN, List.mem_map] at hkv
@@ -532,15 +628,13 @@ end fixedN
 /-! ### the two quoting modes -/
 
 /-- FULL quoting, no authority: a scheme (any text without `:/?#`) or none, no host, no userinfo, at least one
-    path segment, arbitrary component texts; in a relative reference the rendering of the first path segment
-    has no raw `:` -/
+    path segment, arbitrary component texts -/
 structure WFna (env : Env) (u : URL) : Prop where
   scheme_ok : ∀ c ∈ u.scheme, notIn schemeStop c = true
   host_nil : u.host = []
   user_nil : u.username = []
   pw_nil : u.password = []
   parts_ne : u.pathParts ≠ []
-  no_colon : u.scheme = [] → 58 ∉ before 47 (pathText env true u.pathParts)
   query_ok : ∀ kv ∈ u.query, ¬ (env.nfc kv.1 = [] ∧ kv.2 = none)
   scalars : Scalars env u
 
@@ -550,7 +644,6 @@ theorem WFna.toWFnq {env : Env} {u : URL} (hW : WFna env u) : WFnq env true env.
   user_nil := hW.user_nil
   pw_nil := hW.pw_nil
   parts_ne := hW.parts_ne
-  no_colon := hW.no_colon
   query_ok := hW.query_ok
   q_parts := fun s hs => quoted_full .path env.nfc s (hW.scalars.parts s hs)
   q_query := fun kv hkv =>
@@ -565,7 +658,6 @@ structure WFnaMin (env : Env) (u : URL) : Prop where
   user_nil : u.username = []
   pw_nil : u.password = []
   parts_ne : u.pathParts ≠ []
-  no_colon : u.scheme = [] → 58 ∉ before 47 (pathText env false u.pathParts)
   query_ok : ∀ kv ∈ u.query, ¬ (kv.1 = [] ∧ kv.2 = none)
   no_pct_parts : ∀ s ∈ u.pathParts, 37 ∉ s
   no_pct_query : ∀ kv ∈ u.query, 37 ∉ kv.1 ∧ ∀ v, kv.2 = some v → 37 ∉ v
@@ -577,7 +669,6 @@ theorem WFnaMin.toWFnq {env : Env} {u : URL} (hW : WFnaMin env u) : WFnq env fal
   user_nil := hW.user_nil
   pw_nil := hW.pw_nil
   parts_ne := hW.parts_ne
-  no_colon := hW.no_colon
   query_ok := hW.query_ok
   q_parts := fun s hs => quoted_min .path env.nfc s (hW.no_pct_parts s hs)
   q_query := fun kv hkv =>
